@@ -18,6 +18,8 @@ for pid in sorted(d):
             if os.path.exists(mf):
                 m = json.load(open(mf))
                 what = m.get("needs") or m.get("what") or what
+                if m.get("superseded"):
+                    what = "(superseded by a later repair of /repo: no longer breaks the property) " + what
         clause = ""
         if r.get("violations"):
             m = re.match(r"violated: (\S+)", r["violations"][0])
